@@ -7,7 +7,7 @@ import time
 import traceback
 
 JOBS = {}
-EXTRA_MODULES = ('jobs_csv', 'jobs_text', 'jobs_deps', 'jobs_misc', 'jobs_c08', 'jobs_c13', 'jobs_c14', 'jobs_c15', 'jobs_c16', 'jobs_c18', 'jobs_c19', 'jobs_c20', 'jobs_extra')
+EXTRA_MODULES = ('jobs_csv', 'jobs_text', 'jobs_deps', 'jobs_misc', 'jobs_c08', 'jobs_c13', 'jobs_c14', 'jobs_c15', 'jobs_c16', 'jobs_c18', 'jobs_c19', 'jobs_c20', 'jobs_extra', 'jobs_adapters')
 
 
 def job(*props):
